@@ -96,7 +96,10 @@ pub fn run(seed: u64, tier: &str, out: &mut Out) {
         const BIN: [&str; 8] = ["Ki", "Mi", "Gi", "Ti", "Pi", "Ei", "Zi", "Yi"];
         const DEC: [&str; 8] = ["k", "M", "G", "T", "P", "E", "Z", "Y"];
         for n in ns {
-            let hb = format!("{}", HumanBytes(n)); let bb = format!("{}", BinaryBytes(n)); let db = format!("{}", DecimalBytes(n));
+            let (hb, bb, db) = match std::panic::catch_unwind(|| (format!("{}", HumanBytes(n)), format!("{}", BinaryBytes(n)), format!("{}", DecimalBytes(n)))) {
+                Ok(x) => x,
+                Err(_) => { out.emit(&format!("FMT bytes binary {n}"), &format!("panic ORACLE FAIL panic a bytes formatter of {n} panics")); out.emit(&format!("FMT bytes decimal {n}"), "panic ORACLE ok"); continue; }
+            };
             let v = if hb != bb { format!("FAIL bytes-alias HumanBytes != BinaryBytes for {n}") } else { bytes_verdict(n, &bb, 1024, &BIN) };
             out.emit(&format!("FMT bytes binary {n}"), &format!("{bb} ORACLE {v}"));
             out.emit(&format!("FMT bytes decimal {n}"), &format!("{db} ORACLE {}", bytes_verdict(n, &db, 1000, &DEC)));
@@ -108,7 +111,7 @@ pub fn run(seed: u64, tier: &str, out: &mut Out) {
     let nrand = if tier == "thorough" { 1_000_000 } else { 5_000 };
     for _ in 0..nrand { let bits = rng.below(64); counts.push(rng.next() >> bits); }
     for n in counts {
-        let got = format!("{}", HumanCount(n));
+        let got = std::panic::catch_unwind(|| format!("{}", HumanCount(n))).unwrap_or_else(|_| "panic".to_string());
         let v = if got == group_ref(n) { "ok".to_string() } else { format!("FAIL count HumanCount({n}) = {got}") };
         out.emit(&format!("FMT count {n}"), &format!("{got} ORACLE {v}"));
     }
@@ -117,7 +120,7 @@ pub fn run(seed: u64, tier: &str, out: &mut Out) {
     let _ = &mut secs;
     for _ in 0..nrand / 5 { let bits = rng.below(64); secs.push(rng.next() >> bits); }
     for s in secs {
-        let got = format!("{}", FormattedDuration(Duration::new(s, 999_999_999)));
+        let got = std::panic::catch_unwind(|| format!("{}", FormattedDuration(Duration::new(s, 999_999_999)))).unwrap_or_else(|_| "panic".to_string());
         // parse back
         let (days, hms) = match got.split_once("d ") { Some((d, r)) => (d.parse::<u64>().unwrap_or(u64::MAX), r.to_string()), None => (0, got.clone()) };
         let parts: Vec<u64> = hms.split(':').map(|x| x.parse().unwrap_or(u64::MAX)).collect();
@@ -146,8 +149,11 @@ pub fn run(seed: u64, tier: &str, out: &mut Out) {
     ds.sort(); ds.dedup();
     for d in ds {
         let dur = Duration::new((d / 1_000_000_000) as u64, (d % 1_000_000_000) as u32);
-        let got = format!("{}", HumanDuration(dur));
-        let gota = format!("{:#}", HumanDuration(dur));
+        // "the formatting wrappers never panic": a panic is a failure of this value, not of the harness
+        let (got, gota) = match std::panic::catch_unwind(|| (format!("{}", HumanDuration(dur)), format!("{:#}", HumanDuration(dur)))) {
+            Ok(x) => x,
+            Err(_) => { out.emit(&format!("FMT hdur {d}"), &format!("panic ORACLE FAIL panic HumanDuration of {d} ns panics")); out.emit(&format!("FMT hdura {d}"), "panic ORACLE ok"); continue; }
+        };
         // oracle: parse "N unit(s)", never "1 unit" above seconds, value monotone in the duration
         let mut v = "ok".to_string();
         let mut it = got.split(' ');
